@@ -27,13 +27,19 @@ def impl_raw(rule, op, x, y, int_dtype=False):
 KEEP = []     # (real result, canonical value when produced, description, operands + their snapshots)
 
 
-def impl_public(op, dep, x, y, bare=False, int_dtype=False, keep=True):
+def impl_public(op, dep, x, y, bare=False, int_dtype=False, keep=True, y_interval=False):
     import warnings
     try:
         with warnings.catch_warnings():
             warnings.simplefilter("ignore")
-            X, Y = pbx.stair(*x, int_dtype=int_dtype), pbx.stair(*y, int_dtype=int_dtype)
-            sx, sy = pbx.canon_pb(X), pbx.canon_pb(Y)
+            X = pbx.stair(*x, int_dtype=int_dtype)
+            if y_interval:        # the second operand handed over as an Interval OBJECT (converted by the method)
+                from pyuncertainnumber.pba.intervals.number import Interval
+                Y = Interval(y[0][0], y[1][0])
+                sx, sy = pbx.canon_pb(X), ("ok", [float(Y.lo)], [float(Y.hi)])
+            else:
+                Y = pbx.stair(*y, int_dtype=int_dtype)
+                sx, sy = pbx.canon_pb(X), pbx.canon_pb(Y)
             if bare:
                 r = pbx.PYOPS[op](X, Y)
             else:
@@ -56,7 +62,8 @@ def recheck_kept(ctx, prop):
                      {"op": op, "dep": dep, "when_produced": pbx.js(c0), "read_again_later": pbx.js(pbx.canon_pb(r))},
                      f"the p-box returned by {op}/{dep} changed after later operations: results share memory")
             break
-        if pbx.canon_pb(X) != sx or pbx.canon_pb(Y) != sy:
+        cy = pbx.canon_pb(Y) if hasattr(Y, "left") and not hasattr(Y, "lo_is_interval") and Y.__class__.__name__ != "Interval" else ("ok", [float(Y.lo)], [float(Y.hi)])
+        if pbx.canon_pb(X) != sx or cy != sy:
             ctx.fail({"op": op, "dep": dep, "check": "sequence", "symptom": "operand-mutated"}, {"op": op, "dep": dep},
                      f"an operand of {op}/{dep} was modified by the operation")
             break
@@ -210,6 +217,14 @@ def gen_cases(ctx):
             sy = rng.choice(["pos", "neg"])
         x, y = pbx.int_box200(rng, sx), pbx.int_box200(rng, sy)
         cases.append(("public-int", "public", op, x, y))
+    # second operand handed over as an Interval OBJECT (every sign class, incl. straddling x straddling)
+    for _ in range(ctx.scale(24, 600)):
+        op = rng.choice(["add", "sub", "mul", "mul", "div"])
+        sx = rng.choice(signs)
+        lo = rng.choice([-3, -2, -1, 0, 1, 2]); hi = lo + rng.choice([0, 1, 2, 3])
+        if op == "div" and lo <= 0 <= hi:
+            lo, hi = 1, 1 + (hi - lo)
+        cases.append(("public-ivlobj", "public", op, pbx.int_box200(rng, sx), ([lo] * 200, [hi] * 200)))
     for _ in range(ctx.scale(24, 600)):
         op = rng.choice(["add", "sub", "mul", "div"])
         sx, sy = rng.choice(signs), rng.choice(signs)
@@ -246,11 +261,11 @@ def run(ctx: core.Check):
         triv = (n == 1 and x[0] == x[1] and y[0] == y[1])
         ctx.count((rule, op, x, y), not triv, stream.split(":")[0])
         ctx.bump("signs:" + pbx.sign_class(*x) + "x" + pbx.sign_class(*y))
-        exact = stream in ("raw-small", "raw-naive", "raw-intdtype") or (stream in ("public-int", "public-intdtype") and op != "div")
+        exact = stream in ("raw-small", "raw-naive", "raw-intdtype") or (stream in ("public-int", "public-intdtype", "public-ivlobj") and op != "div")
         idt = stream.endswith("intdtype")
         if rule == "public":
             bare = rng.random() < 0.3
-            impl = impl_public(op, "f", x, y, bare, int_dtype=idt)
+            impl = impl_public(op, "f", x, y, bare, int_dtype=idt, y_interval=(stream == "public-ivlobj"))
         else:
             impl = impl_raw(rule, op, x, y, int_dtype=idt)
         model = pbx.parse_reply(rep)
